@@ -383,14 +383,20 @@ fn many_edges(run: &Run, q: bool) {
     });
     // very tall and very wide surfaces: rows / columns beyond 8192 (16-bit sample-row indices)
     {
-        let far = [-3, 32761, 32766, 32771, 32790];
-        let near = [-2, 1, 3, 6];
-        polygons(run, "i:triangles on a 1x8200 surface", 1, 8200, &grid(&near, &far), 3, false, &BOTH_AA, &BOTH_RULES);
-        polygons(run, "i:triangles on a 8200x1 surface", 8200, 1, &grid(&far, &near), 3, false, &BOTH_AA, &BOTH_RULES);
+        let far_t = [-3, 32761, 32766, 32771, 32790];
+        let near_t = [-2, 1, 3, 6];
+        let far_q = [-3, 32761, 32771, 32790];
+        let near_q = [-2, 1, 6];
+        let (far, near): (&[i32], &[i32]) = if q { (&far_q, &near_q) } else { (&far_t, &near_t) };
+        polygons(run, "i:triangles on a 1x8200 surface", 1, 8200, &grid(near, far), 3, false, &BOTH_AA, &BOTH_RULES);
+        polygons(run, "i:triangles on a 8200x1 surface", 8200, 1, &grid(far, near), 3, false, &BOTH_AA, &BOTH_RULES);
     }
-    let xs = [-3, 15981, 15990, 15995, 16001];
-    let ys = [-2, 1, 3, 6];
-    polygons(run, "i:triangles on a 4000x1 surface", 4000, 1, &grid(&xs, &ys), 3, false, &BOTH_AA, &BOTH_RULES);
+    let xs_t = [-3, 15981, 15990, 15995, 16001];
+    let ys_t = [-2, 1, 3, 6];
+    let xs_q = [-3, 15981, 15995, 16001];
+    let ys_q = [-2, 1, 6];
+    let (xs, ys): (&[i32], &[i32]) = if q { (&xs_q, &ys_q) } else { (&xs_t, &ys_t) };
+    polygons(run, "i:triangles on a 4000x1 surface", 4000, 1, &grid(xs, ys), 3, false, &BOTH_AA, &BOTH_RULES);
 }
 
 impl Check for C01 {
